@@ -106,4 +106,36 @@ def validCand (s : NS) (p : Pt) : Bool :=
 def insCheckpoint (guardFirst : Bool) (periodic : Bool) (file newState : Nat) : Nat :=
   if guardFirst && !periodic then file else newState
 
+/-! ### a signal while the INITIAL live points are drawn (`populate_live_points`)
+
+The draws fill an array of `n` rows (unfilled rows are NaN: `none`); `self.live_points` — what the handler's checkpoint
+pickles — is bound either after the draw loop (`publishAfterFill`, the array is then complete and sorted) or before it
+(the handler then pickles the partially filled, unsorted array).  `initialise(live_points=True)` of the resumed run draws the
+initial points again exactly when the pickled attribute is `None`. -/
+
+/-- ordered insert by (key, id): `np.sort(live_points, order="logL")` on points with distinct ids -/
+def insPt (p : Pt) : List Pt → List Pt
+  | [] => [p]
+  | x :: xs => if p.key < x.key ∨ (p.key = x.key ∧ p.id ≤ x.id) then p :: x :: xs else x :: insPt p xs
+
+def sortPts : List Pt → List Pt
+  | [] => []
+  | x :: xs => insPt x (sortPts xs)
+
+/-- `self.live_points` as pickled by a handler that runs after `k` of the `n` initial draws -/
+def populatePickled (publishAfterFill : Bool) (n : Nat) (draws : List Pt) (k : Nat) : Option (List (Option Pt)) :=
+  if publishAfterFill then none
+  else some ((draws.take k).map some ++ List.replicate (n - min k draws.length) none)
+
+/-- the live set the resumed run starts iterating from (`draws'` = the initial draws of the new process) -/
+def populateResumed (publishAfterFill : Bool) (n : Nat) (draws draws' : List Pt) (k : Nat) : List (Option Pt) :=
+  match populatePickled publishAfterFill n draws k with
+  | none => (sortPts draws').map some
+  | some part => part
+
+/-- a full, NaN-free live set in ascending likelihood order -/
+def fullLive (n : Nat) (l : List (Option Pt)) : Bool :=
+  decide (l.length = n) && l.all Option.isSome &&
+    decide ((l.filterMap id).Pairwise (fun a b => a.key ≤ b.key))
+
 end NessaiVerif.Interrupt
